@@ -127,3 +127,58 @@ Proof.
     split; [exact I2|]. split; [rewrite Ek; exact Hk1|]. rewrite Eq, app_nil_r. exact Hv1.
   - exists rs, f, b1. split; [reflexivity|]. split; [exact I1|]. split; [exact Hk1|exact Hv1].
 Qed.
+
+(* ---------- a flush that fails: exactly the puts before the doomed one reach the file ---------- *)
+Lemma put_doomed H rs h k v :
+  full H rs h -> closed h = false -> md h = MA ->
+  (assoc rs k <> None \/ wfb k v = false) ->
+  exists e, put (H ++ blocks rs) h k v = (H ++ blocks rs, h, RErr e).
+Proof.
+  intros [Ht He] Hc Hm Hd. unfold put. rewrite Hc, Hm. simpl.
+  destruct (assoc rs k) as [v0|] eqn:Ea.
+  - assert (Hl : exists r0, lookup (toc h) k = Some r0).
+    { rewrite Ht. pose proof (lookup_index_assoc rs (len H) k) as L. rewrite Ea in L.
+      destruct (lookup (index_from (len H) rs) k) as [r0|]; [exists r0; reflexivity|contradiction]. }
+    destruct Hl as [r0 Hl]. rewrite Hl. exists EKey. reflexivity.
+  - destruct Hd as [Hd|Hd]; [congruence|].
+    assert (Hl : lookup (toc h) k = None).
+    { rewrite Ht. pose proof (lookup_index_assoc rs (len H) k) as L. rewrite Ea in L.
+      destruct (lookup (index_from (len H) rs) k); [contradiction|reflexivity]. }
+    rewrite Hl. unfold enc_block. fold (wfb k v). rewrite Hd. exists EStruct. reflexivity.
+Qed.
+
+(* queue = good ++ (k,v) :: rest with every put of [good] valid and (k,v) doomed (its key is already stored or
+   buffered before it, or a size is out of range): flush writes exactly [good], drops (k,v), keeps [rest]
+   buffered, reports the error, and the listing becomes stored keys + still-buffered keys. *)
+Theorem flush_fails_atomically H : forall good fuel rs f h ks u bs r s k v rest,
+  (length good + S (length rest) < fuel)%nat ->
+  f = H ++ blocks rs -> full H rs h -> closed h = false -> md h = MA ->
+  Forall wfkv good -> NoDup (map fst (rs ++ good)) ->
+  (assoc (rs ++ good) k <> None \/ wfb k v = false) ->
+  exists h' e,
+    flush_loop fuel f (mkb h true (good ++ (k, v) :: rest) ks u bs r s) =
+      (H ++ blocks (rs ++ good),
+       mkb h' true rest (set_union (keys h') (map fst rest)) u bs r s, Some e)
+    /\ full H (rs ++ good) h' /\ closed h' = false /\ md h' = MA.
+Proof.
+  induction good as [|[k0 v0] good IH]; intros fuel rs f h ks u bs r s k v rest Hf Ef Hfull Hc Hm Hq Hnd Hd.
+  - destruct fuel as [|fuel]; [simpl in Hf; lia|]. rewrite app_nil_r in *. simpl app.
+    cbn [flush_loop queue has_uk negb uk bkeys used bufsize ro st]. subst f.
+    destruct (put_doomed H rs h k v Hfull Hc Hm Hd) as [e Ep]. rewrite Ep.
+    exists h, (berr_of e). split; [reflexivity|split; [exact Hfull|split; assumption]].
+  - destruct fuel as [|fuel]; [simpl in Hf; lia|]. simpl app.
+    cbn [flush_loop queue has_uk negb uk bkeys used bufsize ro st].
+    inversion Hq as [|x l Hkv Hq']; subst x l.
+    assert (Ha : assoc rs k0 = None).
+    { apply assoc_none_iff. rewrite map_app in Hnd. simpl in Hnd. apply NoDup_remove_2 in Hnd.
+      intros Hin. apply Hnd. apply in_or_app. left. exact Hin. }
+    destruct (put_ok H rs h k0 v0 Hfull Hc Hm Ha (wfkv_wfb k0 v0 Hkv)) as [h1 [Ep [Hf1 [Hm1 Hc1]]]].
+    subst f. rewrite Ep.
+    destruct (IH fuel (rs ++ [(k0, v0)]) (H ++ blocks (rs ++ [(k0, v0)])) h1 ks u bs r s k v rest) as [h' [e [E [A [B C]]]]];
+      try assumption; try reflexivity.
+    + simpl in Hf. lia.
+    + rewrite <- app_assoc. exact Hnd.
+    + rewrite <- app_assoc. exact Hd.
+    + exists h', e. rewrite E. rewrite <- !app_assoc in *. simpl in *.
+      split; [reflexivity|split; [exact A|split; [exact B|exact C]]].
+Qed.
